@@ -13,6 +13,7 @@ import Vicut.Model.Field
 import Vicut.Model.Undo
 import Vicut.Model.Search
 import Vicut.Model.ExRef
+import Vicut.Model.Verbs
 
 open Lean Vicut
 
@@ -270,6 +271,102 @@ def opExRef (req : Json) : Json :=
       | _ => ps
   Json.mkObj [("text", J (renderPieces out))]
 
+def natsOf (j : Json) : List Nat :=
+  match j with
+  | .arr a => a.toList.map (fun x => x.getNat?.toOption.getD 0)
+  | _ => []
+
+def mkOf (j : Json) : MK :=
+  match j with
+  | .arr a =>
+    let n (i : Nat) : Nat := (a[i]?.bind (fun x => x.getNat?.toOption)).getD 0
+    match (a[0]?.bind (fun x => x.getStr?.toOption)).getD "" with
+    | "To" => .to (n 1)
+    | "On" => .on (n 1)
+    | "Onto" => .onto (n 1)
+    | "Inclusive" => .inclusive (n 1) (n 2)
+    | "Exclusive" => .exclusive (n 1) (n 2)
+    | "Line" => .line (n 1)
+    | "LineRange" => .lineRange (n 1) (n 2)
+    | "LineOffset" => .lineOffset ((a[1]?.bind (fun x => x.getInt?.toOption)).getD 0)
+    | "InclusiveWithTargetCol" => .inclTarget (n 1) (n 2) (n 3)
+    | "ExclusiveWithTargetCol" => .exclTarget (n 1) (n 2) (n 3)
+    | "BlockRange" =>
+      match a[1]?.getD Json.null with
+      | .arr ws => .blockRange (ws.toList.map (fun w => match natsOf w with | [x, y] => (x, y) | _ => (0, 0)))
+      | _ => .blockRange []
+    | "Lines" => .lines (natsOf (a[1]?.getD Json.null))
+    | _ => .null
+  | _ => .null
+
+def regContentOf (kind : String) (v : Json) : RegContent :=
+  match kind with
+  | "span" => .span (v.getStr?.toOption.getD "").toList
+  | "line" => .line (v.getStr?.toOption.getD "").toList
+  | "block" => match v with
+    | .arr a => .block (a.toList.map (fun x => (x.getStr?.toOption.getD "").toList))
+    | _ => .block []
+  | _ => .empty
+
+def regContentJson : RegContent → Json
+  | .span s => Json.arr #["span", J s]
+  | .line s => Json.arr #["line", J s]
+  | .block ls => Json.arr #["block", Json.arr (ls.map J).toArray]
+  | .empty => Json.arr #["empty", Json.null]
+
+def regsOf (j : Json) : Regs :=
+  match j with
+  | .arr a => a.toList.filterMap fun e =>
+    match e with
+    | .arr #[.str name, .str kind, v] => some (name.toList.head?, regContentOf kind v)
+    | _ => none
+  | _ => []
+
+def charOf (j : Option Json) : Char := ((j.bind (fun x => x.getStr?.toOption)).getD "?").toList.headD '?'
+
+/-- `{"op":"verb","gs":[..],"cur":n,"excl":b,"regs":[[name,kind,content]..],"verb":[..],"mk":[..],"reg":[name|null,append]}` -/
+def opVerb (req : Json) : Json :=
+  let lb : LB := ⟨gsOf req, jnat req "cur", jbool req "excl"⟩
+  let regs := regsOf ((req.getObjVal? "regs").toOption.getD Json.null)
+  let mk := mkOf ((req.getObjVal? "mk").toOption.getD Json.null)
+  let va := jarr req "verb"
+  let ra := jarr req "reg"
+  let reg : RegName := ⟨(ra[0]?.bind (fun x => x.getStr?.toOption)).bind (fun s => s.toList.head?),
+                        (ra[1]?.bind (fun x => x.getBool?.toOption)).getD false⟩
+  let n (i : Nat) : Nat := (va[i]?.bind (fun x => x.getNat?.toOption)).getD 0
+  let v? : Option VerbK :=
+    match (va[0]?.bind (fun x => x.getStr?.toOption)).getD "" with
+    | "Delete" => some .delete
+    | "Change" => some .change
+    | "Yank" => some .yank
+    | "ToggleCaseRange" => some (.caseRange .toggle)
+    | "ToLower" => some (.caseRange .lower)
+    | "ToUpper" => some (.caseRange .upper)
+    | "Rot13" => some .rot13
+    | "PutAfter" => some (.putSpan true)
+    | "PutBefore" => some (.putSpan false)
+    | "InsertChar" => some (.insertChar (charOf va[1]?))
+    | "ReplaceChar" => some (.replaceChar (charOf va[1]?))
+    | "ToggleCaseInplace" => some (.toggleInplace (n 1))
+    | "ReplaceCharInplace" => some (.replaceInplace (charOf va[1]?) (n 2))
+    | _ => none
+  match v? with
+  | none => Json.mkObj [("err", "verb not modelled")]
+  | some v =>
+    match execVerbText v mk reg lb regs with
+    | .error (.panic site) => Json.mkObj [("panic", Json.str site)]
+    | .ok out =>
+      -- registers in canonical form: sorted by name, trivial (empty span) entries dropped
+      let names : List (Option Char) := none :: ("abcdefghijklmnopqrstuvwxyz".toList.map some)
+      let rj := names.filterMap fun nm =>
+        match out.regs.get nm with
+        | .span [] => none
+        | c => some (Json.arr #[Json.str (match nm with | none => "" | some ch => String.singleton ch), regContentJson c])
+      Json.mkObj [("text", J out.text), ("regs", Json.arr rj.toArray),
+                  ("range", match rangeFromMotion lb mk with
+                            | some (s, e) => Json.arr #[s, e]
+                            | none => Json.null)]
+
 def dispatch (req : Json) : Json :=
   match jstr req "op" with
   | "ping" => Json.mkObj [("pong", true)]
@@ -284,6 +381,7 @@ def dispatch (req : Json) : Json :=
   | "search" => opSearch req
   | "exref" => opExRef req
   | "global" => opGlobal req
+  | "verb" => opVerb req
   | op => Json.mkObj [("err", Json.str s!"unknown op {op}")]
 
 partial def loop (h : IO.FS.Stream) (out : IO.FS.Stream) : IO Unit := do
